@@ -19,10 +19,12 @@ CLAIMS = {
         "add/sub/mul/neg overflow, shift amount, division; expect/unwrap, Index, chrono constructors) is definitely safe in "
         "every context of a partition covering all 32 DF x both lengths x every digit count 0..64 through the line gate, all "
         "type codes/subtypes, altitude/velocity field classes, Comm-B classes, both update paths, -R, any -u/-d, the counters, "
-        "the sweep (inductive counter invariant), sort keys and row rendering; plus structural termination (acyclic call graph, "
-        "loops over finite sources) and the EOF/exit-0 path. Not decided: EPIPE, OOM on huge lines, -D/-l file-system failures.",
+        "the sweep (inductive counter invariant), sort keys, row rendering and the display-flag construction from any -i list; "
+        "plus structural termination (acyclic call graph, loops over finite sources / counted loops / read-count loops), lock "
+        "discipline (may-hold dataflow: no RwLock/Mutex is requested, directly or through a callee or closure, while a guard of "
+        "the same lock is alive - std locks are not re-entrant) and the EOF/exit-0 path. Not decided: EPIPE, OOM on huge lines, -D/-l file-system failures.",
         note=TB + "std/chrono model table (sq/absint/models.py); dev profile MIR (a superset of the release profile's panic sites).",
-        technique="abstract interpretation over MIR (obligation discharge per context) + CFG/call-graph rules"),
+        technique="abstract interpretation over MIR (obligation discharge per context) + CFG/call-graph rules + lock may-hold dataflow"),
     "C02": dict(category="other", design_ref="DESIGN.md 5/C02",
         text="Proof: get_message is interpreted abstractly on a line = (symbolic hex digits, arbitrary decoration) for every digit "
         "count 0..64 and every DF x length; the result is None exactly outside {14,28,26,40}/on DF-length disagreement and otherwise "
